@@ -109,13 +109,9 @@ theorem stage1_ok_tmpEmpty {r r1 : Run} {s : Schema} {l : List Index}
     obtain ⟨db, hok, hw, _, _⟩ := step_none hs
     have hte : TmpEmpty ra.conn := by
       rw [heq] at hw
-      simp only [applyStmt] at hok
-      split at hok
-      · cases hok
-      · split at hok
-        · cases hok
-        · cases hok
-          exact ⟨{ schema := s, rows := [] }, by rw [hw], rfl⟩
+      have hdb := applyStmt_createTmp_ok hok
+      subst hdb
+      exact ⟨{ schema := s, rows := [] }, by rw [hw], rfl⟩
     have := execAll_tmpIndex_tmpEmpty (ct := ct) (fault := fault) l ra hte
     rw [h] at this; exact this
 
@@ -487,12 +483,9 @@ theorem stage1_tail_left {r r1 : Run} {e : Err} {s : Schema} {l : List Index} (h
     rw [heq] at hw htx' hcm
     simp only [opens, Stmt.isDml, Bool.false_and, htx, Bool.or_self, Bool.false_eq_true, if_false] at htx' hcm
     have hboth : TmpBoth ra.conn := by
-      simp only [applyStmt] at hok
-      split at hok
-      · cases hok
-      · split at hok
-        · cases hok
-        · cases hok; exact ⟨⟨_, by rw [hw]⟩, ⟨_, by rw [hcm]⟩⟩
+      have hdb := applyStmt_createTmp_ok hok
+      subst hdb
+      exact ⟨⟨_, by rw [hw]⟩, ⟨_, by rw [hcm]⟩⟩
     have := execAll_tmpIndex_both (ct := ct) (fault := fault) l ra hboth htx'
     rw [h] at this; exact this
 
@@ -519,12 +512,9 @@ theorem stage1_ok_both {r r1 : Run} {s : Schema} {l : List Index} (htx : r.conn.
     rw [heq] at hw htx' hcm
     simp only [opens, Stmt.isDml, Bool.false_and, htx, Bool.or_self, Bool.false_eq_true, if_false] at htx' hcm
     have hboth : TmpBoth ra.conn := by
-      simp only [applyStmt] at hok
-      split at hok
-      · cases hok
-      · split at hok
-        · cases hok
-        · cases hok; exact ⟨⟨_, by rw [hw]⟩, ⟨_, by rw [hcm]⟩⟩
+      have hdb := applyStmt_createTmp_ok hok
+      subst hdb
+      exact ⟨⟨_, by rw [hw]⟩, ⟨_, by rw [hcm]⟩⟩
     have := execAll_tmpIndex_both (ct := ct) (fault := fault) l ra hboth htx'
     rw [h] at this; exact this
 
